@@ -408,7 +408,9 @@ struct ModSpec {
     arity: usize,
     /// every operation takes the result of the operation before it as its operands (a def-use chain that ends in the
     /// block's terminator) instead of two unrelated ids
-    chain: bool,
+    /// 0: no; 1: every operand is the previous result; 2: the first operand is a module constant, the others the previous
+    /// result; 3: the first operand is the previous result, the others a module constant
+    chain: u8,
 }
 
 fn build_module(s: &ModSpec) -> Option<(Vec<Inst>, Expected)> {
@@ -491,6 +493,7 @@ fn build_module(s: &ModSpec) -> Option<(Vec<Inst>, Expected)> {
     let void = type_ids[0].0;
     let mut exp_funcs = vec![];
     let mut n_ops = 0usize;
+    let mut op_args: Vec<Vec<u32>> = vec![];
     for (fi, blocks) in s.funcs.iter().enumerate() {
         let fid = next;
         next += 1;
@@ -533,12 +536,14 @@ fn build_module(s: &ModSpec) -> Option<(Vec<Inst>, Expected)> {
                 next += 1;
                 // the last operation of a block takes its result type from the whole type list in turn
                 let ot = if k + 1 == *nops { (bi + fi + type_ids.len() - 1) % type_ids.len() } else { type_ids.iter().position(|x| x.0 == int).unwrap() };
-                let args: Vec<Arg> = if s.chain {
+                let args: Vec<Arg> = if s.chain > 0 {
                     let a = last_val.or(const_ids.first().copied()).unwrap_or(int);
-                    (0..s.arity).map(|_| Arg::IdRef(a)).collect()
+                    let c = const_ids.first().copied().unwrap_or(int);
+                    (0..s.arity).map(|q| Arg::IdRef(match (s.chain, q) { (1, _) => a, (2, 0) => c, (2, _) => a, (3, 0) => a, _ => c })).collect()
                 } else {
                     (0..s.arity).map(|q| Arg::IdRef(if q % 2 == 0 { int } else { void })).collect()
                 };
+                op_args.push(args.iter().filter_map(|a| if let Arg::IdRef(x) = a { Some(*x) } else { None }).collect::<Vec<u32>>());
                 insts.push(Inst::new(s.op, Some(type_ids[ot].0), Some(id), args));
                 last_val = Some(id);
                 prev_op_next = Some((id, ot));
@@ -581,7 +586,7 @@ fn build_module(s: &ModSpec) -> Option<(Vec<Inst>, Expected)> {
         insts.push(Inst::new("FunctionEnd", None, None, vec![]));
         exp_funcs.push((control, rt_index, exp_blocks));
     }
-    Some((insts, Expected { caps: s.caps.clone(), types: type_debug, consts: const_debug, n_ops, funcs: exp_funcs }))
+    Some((insts, Expected { caps: s.caps.clone(), types: type_debug, consts: const_debug, n_ops, op_args, funcs: exp_funcs }))
 }
 
 struct Expected {
@@ -589,6 +594,8 @@ struct Expected {
     types: Vec<String>,
     consts: Vec<String>,
     n_ops: usize,
+    /// the id operands of every operation, in declaration order
+    op_args: Vec<Vec<u32>>,
     funcs: Vec<(u32, usize, Vec<(Vec<usize>, String)>)>,
 }
 
@@ -644,6 +651,19 @@ fn check_module(s: &ModSpec) -> (Vec<Viol>, &'static str) {
         bad("constants", format!("constants {:?}, expected {:?}", consts, exp.consts));
     }
     let nops = storage_entries(&format!("{:?}", m.ops)).len();
+    // the operations are lifted in declaration order, each with its id operands in the positions they were written in
+    {
+        let entries = storage_entries(&format!("{:?}", m.ops));
+        if entries.len() == exp.op_args.len() {
+            for (k, (e, want)) in entries.iter().zip(exp.op_args.iter()).enumerate() {
+                let ints: Vec<u32> = atoms_compact(e).split(' ').filter_map(|w| w.parse::<u32>().ok()).collect();
+                if ints.len() == want.len() && ints != *want {
+                    bad("op-operands", format!("operation #{} lifted as {} ; its id operands were written as {:?}", k, e, want));
+                    break;
+                }
+            }
+        }
+    }
     if nops != exp.n_ops {
         bad("ops", format!("{} operations for {} result-producing non-phi block instructions", nops, exp.n_ops));
     }
@@ -807,14 +827,14 @@ pub fn run(tier: Tier) -> Run {
     for (ti, ts) in type_seqs.iter().enumerate() {
         let caps = cap_lists[ti % cap_lists.len()].clone();
         let f = func_shapes[ti % func_shapes.len()].clone();
-        specs.push(ModSpec { caps, types: ts.clone(), consts: ti % 5, funcs: vec![f], control: [0u32, 1, 2, 4, 8, 3][ti % 6], op: "IAdd", arity: 2, chain: false });
+        specs.push(ModSpec { caps, types: ts.clone(), consts: ti % 5, funcs: vec![f], control: [0u32, 1, 2, 4, 8, 3][ti % 6], op: "IAdd", arity: 2, chain: 0 });
     }
     for (fi, f) in func_shapes.iter().enumerate() {
         for caps in &cap_lists {
-            specs.push(ModSpec { caps: caps.clone(), types: vec!["float", "vector"], consts: 4, funcs: vec![f.clone()], control: (fi % 4) as u32, op: "IAdd", arity: 2, chain: false });
-            specs.push(ModSpec { caps: caps.clone(), types: vec![], consts: fi % 5, funcs: vec![f.clone(), func_shapes[(fi * 7 + 3) % func_shapes.len()].clone()], control: 1, op: "IAdd", arity: 2, chain: false });
+            specs.push(ModSpec { caps: caps.clone(), types: vec!["float", "vector"], consts: 4, funcs: vec![f.clone()], control: (fi % 4) as u32, op: "IAdd", arity: 2, chain: 0 });
+            specs.push(ModSpec { caps: caps.clone(), types: vec![], consts: fi % 5, funcs: vec![f.clone(), func_shapes[(fi * 7 + 3) % func_shapes.len()].clone()], control: 1, op: "IAdd", arity: 2, chain: 0 });
             // two functions behind a declared function type whose return type is not the second function's result type
-            specs.push(ModSpec { caps: caps.clone(), types: vec!["float", "function"], consts: fi % 3, funcs: vec![func_shapes[(fi * 5 + 1) % func_shapes.len()].clone(), f.clone()], control: 2, op: "IAdd", arity: 2, chain: false });
+            specs.push(ModSpec { caps: caps.clone(), types: vec!["float", "function"], consts: fi % 3, funcs: vec![func_shapes[(fi * 5 + 1) % func_shapes.len()].clone(), f.clone()], control: 2, op: "IAdd", arity: 2, chain: 0 });
         }
     }
     // ---- def-use chains: for EVERY liftable opcode whose operands are 1..3 plain ids, a chain of 1..4 such operations
@@ -839,14 +859,30 @@ pub fn run(tier: Tier) -> Run {
         // constant id tells them apart; they stay covered by part (a), where every id names a declared type
         let chain_ops: Vec<(&'static str, usize)> = chain_ops
             .into_par_iter()
-            .filter(|(op, arity)| check_module(&ModSpec { caps: vec![1], types: vec!["bool"], consts: 1, funcs: vec![vec![(1, 0, "Return")]], control: 0, op, arity: *arity, chain: true }).0.is_empty())
+            .filter(|(op, arity)| check_module(&ModSpec { caps: vec![1], types: vec!["bool"], consts: 1, funcs: vec![vec![(1, 0, "Return")]], control: 0, op, arity: *arity, chain: 1 }).0.is_empty())
             .collect();
         run.outcome("chain_opcodes", chain_ops.len() as u64);
+        // operands from mixed sources (a module constant and an earlier operation, in both orders) for the opcodes with two
+        // or three operands
+        for (op, arity) in chain_ops.iter().filter(|x| x.1 >= 2) {
+            for chain in [2u8, 3] {
+                for d in [1usize, 2, 3] {
+                    specs.push(ModSpec { caps: vec![1], types: vec!["bool"], consts: 2, funcs: vec![vec![(d, 0, "ReturnValue")]], control: 0, op, arity: *arity, chain });
+                }
+            }
+        }
+        // long blocks (31 .. 70 operations), with phis behind the first operation in odd blocks
+        for nops in [31usize, 32, 33, 34, 40, 64, 65, 70] {
+            for chain in [0u8, 1] {
+                specs.push(ModSpec { caps: vec![1], types: vec!["float"], consts: 2, funcs: vec![vec![(nops, 0, "Return"), (nops, 2, "Branch"), (2, 1, "BranchConditional")]], control: 0, op: "IAdd", arity: 2, chain });
+                specs.push(ModSpec { caps: vec![1], types: vec![], consts: 1, funcs: vec![vec![(1, 0, "Return"), (nops, 1, "ReturnValue")], vec![(nops, 0, "Kill")]], control: 1, op: "IAdd", arity: 2, chain });
+            }
+        }
         for (op, arity) in chain_ops {
             for d in 1..=4usize {
                 for tail in ["BranchConditional", "ReturnValue", "Return"] {
                     let f = if tail == "BranchConditional" { vec![(d, 0, "Return"), (d, 0, tail)] } else { vec![(d, 0, tail)] };
-                    specs.push(ModSpec { caps: vec![1], types: vec!["bool"], consts: 1, funcs: vec![f], control: 0, op, arity, chain: true });
+                    specs.push(ModSpec { caps: vec![1], types: vec!["bool"], consts: 1, funcs: vec![f], control: 0, op, arity, chain: 1 });
                 }
             }
         }
